@@ -591,6 +591,9 @@ func parent(ck *Check, tier string, seed int64) {
 	if merged.Transitions == 0 {
 		cov["transitions"] = merged.Evals
 	}
+	if ck.Assume == nil {
+		ck.Assume = []string{}
+	}
 	ev := map[string]any{
 		"property_id": ck.ID,
 		"tier":        tier,
